@@ -174,16 +174,40 @@ def _reorder_parameters(parameters: list[Parameter]) -> list[Parameter]:
     return pos_only + pos_kw + kw_only
 
 
-def _set_dataclass_init(class_: Class) -> None:
-    # Retrieve parameters from all parent dataclasses.
-    parameters = []
+@cache
+def _all_dataclass_parameters(class_: Class) -> list[Parameter]:
+    # Like `dataclasses` does: each class in the reversed MRO contributes the complete list of fields
+    # it knows about (its `__dataclass_fields__`, looked up through inheritance), then come the fields
+    # declared in the class itself. With multiple inheritance, a parent can therefore
+    # re-introduce the definition of a field that another parent had overridden.
+    parameters: list[Parameter] = []
     try:
         mro = class_.mro()
     except ValueError:
         mro = ()  # type: ignore[assignment]
     for parent in reversed(mro):
         if _dataclass_decorator(parent.decorators):
-            parameters.extend(_dataclass_parameters(parent))
+            parameters.extend(_all_dataclass_parameters(parent))
+        else:
+            with suppress(ValueError):
+                for ancestor in parent.mro():
+                    if _dataclass_decorator(ancestor.decorators):
+                        parameters.extend(_all_dataclass_parameters(ancestor))
+                        break
+    if _dataclass_decorator(class_.decorators):
+        parameters.extend(_dataclass_parameters(class_))
+    return parameters
+
+
+def _set_dataclass_init(class_: Class) -> None:
+    # Retrieve parameters from all parent dataclasses, and from the class itself.
+    parameters = list(_all_dataclass_parameters(class_))
+    try:
+        mro = class_.mro()
+    except ValueError:
+        mro = ()  # type: ignore[assignment]
+    for parent in mro:
+        if _dataclass_decorator(parent.decorators):
             # At least one parent dataclass makes the current class a dataclass:
             # that's how `dataclasses.is_dataclass` works.
             class_.labels.add("dataclass")
@@ -193,9 +217,6 @@ def _set_dataclass_init(class_: Class) -> None:
         return
 
     logger.debug("Handling dataclass: %s", class_.path)
-
-    # Add current class parameters.
-    parameters.extend(_dataclass_parameters(class_))
 
     # No `__init__` method is generated with `@dataclass(init=False)`:
     # the fields still count for subclasses, and the constructor is inherited.
